@@ -769,7 +769,24 @@ def degree_roles(repo, rep):
             ok = ok and _k(st.value) == "1"
             rep.ob("ROLE", ok, "_get_Nk_and_IC_as_arrays_: a node of status %s and degree k adds 1 to %sk0[k]" % (letter, letter), func=f, node=st,
                    construct="%s += %s for node %s" % (_k(st.target), _k(st.value), node), detail="" if ok else "class counter does not follow the node's own status/degree")
-    rep.floor("ROLE", "degree-class node counters", n, 3)
+    if n < 3:
+        rep.ob("ROLE", False, "_get_Nk_and_IC_as_arrays_: every node of G is counted in the class array of its own status", func=f, node=f.node,
+               construct="node counters %d" % n,
+               detail="Sk0/Ik0/Rk0 are no longer filled by `for node in G.nodes(): <class of status[node]>[G.degree(node)] += 1` "
+               "(%d such counters found): counts taken from the raw argument collections count a repeated node twice" % n)
+    # the class index sets cover every degree present in G
+    for g in (repo.f("_get_Nk_and_IC_as_arrays_"), repo.f("_get_NkNl_and_IC_as_arrays_")):
+        for x in own_nodes(g.node):
+            if isinstance(x, ast.Assign) and _k(x.targets[0]) in ("Ks", "maxk", "klength") and "degree" in _k(x.value) + str(
+                    [_k(v) for v in _env_of(g).get("Nk", [])]):
+                v = x.value
+                filt = [m for m in ast.walk(v) if isinstance(m, ast.comprehension) and m.ifs] or \
+                    [m for m in ast.walk(v) if isinstance(m, ast.Call) and _k(m.func) == "filter"]
+                alldeg = "dict(G.degree()).values()" in _k(v) or "Nk.keys()" in _k(v)
+                ok = alldeg and not filt
+                rep.ob("ROLE", ok, "%s: degree classes `%s` range over every degree present in G" % (g.name, _k(x.targets[0])), func=g, node=x,
+                       construct="%s = %s" % (_k(x.targets[0]), _k(v)),
+                       detail="" if ok else "the degree-class index set leaves out some degrees (e.g. isolated nodes): those nodes drop out of the population")
     t = ast.unparse(f.node).replace(" ", "")
     ok = "Sk0=(1-rho)*Nk" in t and "Ik0=rho*Nk" in t and "Rk0=0*Nk" in t
     rep.ob("ROLE", ok, "_get_Nk_and_IC_as_arrays_: with rho the classes start at (1-rho)Nk, rho*Nk, 0", func=f, node=f.node,
